@@ -93,6 +93,15 @@ func (r *run) packFor(k int, plaintext []byte) ([]byte, string) {
 func (r *run) doCDgram(st step) {
 	c := r.clients[st.C]
 	dst := r.w.socks[st.Dst]
+	var dstHdr []byte
+	if nd, ok := r.w.names[st.Dst]; ok {
+		dst = r.w.socks[nd.sock]
+		if dst != nil {
+			dstHdr = append(append([]byte{3, byte(len(nd.host))}, nd.host...), byte(dst.addr.Port>>8), byte(dst.addr.Port))
+		}
+	} else if dst != nil {
+		dstHdr = socksAddr(dst.addr)
+	}
 	if dst == nil {
 		return // destination not available in this sandbox
 	}
@@ -114,7 +123,7 @@ func (r *run) doCDgram(st step) {
 	case "1000":
 		sz = 1000
 	case "max":
-		sz = 65507 - saltSize - hdrLen(dst.fam) - 16
+		sz = 65507 - saltSize - len(dstHdr) - 16
 	}
 	payload := make([]byte, sz)
 	r.rng.Read(payload)
@@ -122,7 +131,7 @@ func (r *run) doCDgram(st step) {
 	var pt []byte
 	cls := "ok"
 	if st.Hdr {
-		pt = append(append([]byte{}, socksAddr(dst.addr)...), payload...)
+		pt = append(append([]byte{}, dstHdr...), payload...)
 	} else {
 		pt, cls = badHeader(r.rng, payload)
 	}
@@ -150,7 +159,9 @@ func (r *run) doCDgram(st step) {
 		}
 	}
 	r.emitM(evs, did, 0)
+	r.curDst = st.Dst
 	r.collect(did, 0, stepAssoc, t0)
+	r.curDst = 0
 	r.clock()
 }
 
@@ -257,13 +268,22 @@ type endInfo struct {
 	Flood          int64    `json:"flood"`
 	Layout         string   `json:"layout"`
 	Prom           *promCmp `json:"prom,omitempty"`
+	ViaManager     bool     `json:"via_manager"`
+	LiveAtClose    int      `json:"live_at_close"` // associations not yet removed when the listener was closed
+	Validator      string   `json:"validator"`
 }
 
 func (r *run) doShutdown(baseG, baseFd int) endInfo {
 	var ei endInfo
 	ei.Layout = r.kr.layout
+	r.emitM(r.rec.take(&r.mcur), 0, 0)
+	for _, ai := range r.assocs {
+		if !ai.removed {
+			ei.LiveAtClose++
+		}
+	}
 	t0 := time.Now()
-	r.lconn.Close()
+	r.closeL()
 	select {
 	case <-r.done:
 		ei.Returned = true
@@ -370,7 +390,8 @@ func (r *run) promCompare() *promCmp {
 		}
 	}
 	r.rec.mu.Unlock()
-	pc.OK = pc.Added[0] == pc.Added[1] && pc.Removed[0] == pc.Removed[1]
+	// gathered == recorded, and (the listener is closed, everything has settled) every entry added was removed
+	pc.OK = pc.Added[0] == pc.Added[1] && pc.Removed[0] == pc.Removed[1] && pc.Removed[0] == pc.Added[0]
 	for k, v := range pc.BytesWant {
 		if v != 0 && pc.Bytes[k] != v {
 			pc.OK = false
